@@ -2,6 +2,8 @@
 Export of textX based models and metamodels to dot file.
 """
 
+import os
+from contextlib import contextmanager, suppress
 from dataclasses import dataclass
 from typing import Dict, Iterable, List, Union
 from typing import Optional as Opt
@@ -41,6 +43,24 @@ HEADER = """
 
 
 """
+
+
+@contextmanager
+def _open_for_export(file_name):
+    """
+    Opens a temporary file for writing and moves it to `file_name` only if the
+    export succeeds. A failed export never leaves a partially written file
+    (which generators would later skip as already generated).
+    """
+    tmp_name = f"{file_name}.tmp"
+    try:
+        with open(tmp_name, "w", encoding="utf-8") as f:
+            yield f
+        os.replace(tmp_name, file_name)
+    except BaseException:
+        with suppress(OSError):
+            os.remove(tmp_name)
+        raise
 
 
 def dot_match_str(cls, other_match_rules=None):
@@ -299,7 +319,7 @@ set namespaceSeparator .
 
 
 def metamodel_export(metamodel, file_name, renderer=None):
-    with open(file_name, "w", encoding="utf-8") as f:
+    with _open_for_export(file_name) as f:
         metamodel_export_tofile(metamodel, f, renderer)
 
 
@@ -406,7 +426,7 @@ def model_export(model, file_name, repo=None):
     Returns:
         Nothing
     """
-    with open(file_name, "w", encoding="utf-8") as f:
+    with _open_for_export(file_name) as f:
         model_export_to_file(f, model, repo)
 
 
